@@ -31,9 +31,12 @@ Theorem C15_quorum : ∀ s blk sender height commit s' cp,
 Proof. exact c15_quorum. Qed.
 
 (* The quote of an existing pair changes by no operation other than an accepted oracle update
-   (so C15_quorum covers every price change in every history). *)
+   (so C15_quorum covers every price change in every history) - or the oracle module's own
+   removal of that very pair (an environment step outside opchild: RemoveCurrencyPair deletes
+   the pair together with its quote). *)
 Theorem C15_price_changes_only_by_update : ∀ s o cp,
   is_Some (quotes s !! cp) → quotes (step s o).1 !! cp ≠ quotes s !! cp →
+  o = ORemovePair cp ∨
   ∃ blk sender height commit, o = OUpdateOracle blk sender height commit ∧
                               update_oracle s blk sender height commit = Some (step s o).1.
 Proof. exact c15_price_changes_only_by. Qed.
@@ -79,11 +82,20 @@ Theorem C15_noncommit_payload_rejects : ∀ s blk sender height votes v,
 Proof. exact c15_noncommit_payload_rejects. Qed.
 
 (* Per currency pair the stored timestamp strictly increases along every history: between any
-   two points of a history the quote is either untouched or its timestamp is strictly larger. *)
+   two points of a history the quote is either untouched or its timestamp is strictly larger.
+   Stated for stretches of history [h2] in which the oracle module does not REMOVE the pair:
+   a removed and re-created pair comes back without a quote (C15_remove_create), its timestamp
+   history restarts; the other pairs' quotes - hence their no-replay protection - stay. *)
 Theorem C15_timestamp_monotone : ∀ s h1 h2 cp q1,
+  ORemovePair cp ∉ h2 →
   quotes (run s h1) !! cp = Some (Some q1) →
   ∃ q2, quotes (run s (h1 ++ h2)) !! cp = Some (Some q2) ∧ (q2 = q1 ∨ q_ts q1 < q_ts q2).
 Proof. exact c15_timestamp_monotone. Qed.
+
+Theorem C15_remove_create : ∀ s cp s1 s2,
+  remove_pair s cp = Some s1 → create_pair s1 cp = Some s2 →
+  quotes s2 !! cp = Some None ∧ ∀ cp', cp' ≠ cp → quotes s2 !! cp' = quotes s !! cp'.
+Proof. exact c15_remove_create. Qed.
 
 (* No replay or rollback: an update whose aggregated timestamp is not after the stored
    timestamp of some pair it would write is rejected as a whole. *)
@@ -171,6 +183,7 @@ Print Assumptions C15_nothing_from.
 Print Assumptions C15_repeated_vote_same_result.
 Print Assumptions C15_noncommit_payload_rejects.
 Print Assumptions C15_timestamp_monotone.
+Print Assumptions C15_remove_create.
 Print Assumptions C15_replay_rejected.
 Print Assumptions C15_written_quote.
 Print Assumptions C15_median.
